@@ -1060,6 +1060,20 @@ func (c *staleClient) candidates(e *Engine, loop ast.Stmt) []types.Object {
 				if len(as.Rhs) == len(as.Lhs) && constOf(info, as.Rhs[i]) != nil {
 					continue
 				}
+				// s = s[i+1:], acc = acc + x: the variable is advanced from its own value - carrying it over is
+				// the point of the loop, not a slip
+				if len(as.Rhs) == len(as.Lhs) {
+					self := false
+					ast.Inspect(as.Rhs[i], func(m ast.Node) bool {
+						if id, ok := m.(*ast.Ident); ok && objOf(info, id) == types.Object(o) {
+							self = true
+						}
+						return !self
+					})
+					if self || as.Tok != token.ASSIGN && as.Tok != token.DEFINE {
+						continue
+					}
+				}
 				seen[o] = true
 				out = append(out, o)
 			}
